@@ -10,8 +10,10 @@ Pids == { VPid(PeerN, <<0,0,0,1>>, <<0,0,0,2>>, <<0,0,0,3>>, <<>>),
           VPid(PeerN, <<0,0,0,1>>, <<0,0,0,2>>, <<0,0,0,3>>, <<9,8,7,6,5,4,3,2>>) }          \* node-local form as received from the peer
 Refs == { VRef(Node1, <<0,0,0,77>>, <<<<0,0,0,1>>, <<0,0,0,2>>, <<0,0,0,3>>>>, <<>>),
           VRef(PeerN, <<0,0,0,1>>, <<<<255,255,255,255>>>>, <<1,1,1,1,1,1,1,1>>) }
-NamesU == { VAtom(<<114, 101, 120>>), VAtom(<<>>), VAtom(<<195, 169>>), VAtom([i \in 1..255 |-> 97]) }
-Payloads == { VAtom(<<111, 107>>), VNil, SmallInt(0), VInt(FALSE, <<0,0,0,128>>), VInt(TRUE, <<0,0,0,0,0,0,0,128>>), VBin(<<>>), VBin([i \in 1..300 |-> i % 256]),
+\* (two-byte characters: 256 / 400 bytes but 128 / 200 characters -- header atom lengths count bytes)
+Wide(n) == VAtom([j \in 1..(2 * n) |-> IF j % 2 = 1 THEN 195 ELSE 169])
+NamesU == { VAtom(<<114, 101, 120>>), VAtom(<<>>), VAtom(<<195, 169>>), VAtom([i \in 1..255 |-> 97]), Wide(128) }
+Payloads == { VAtom(<<111, 107>>), VNil, Wide(200), VTuple(<<Wide(128), VAtom(<<111, 107>>)>>), SmallInt(0), VInt(FALSE, <<0,0,0,128>>), VInt(TRUE, <<0,0,0,0,0,0,0,128>>), VBin(<<>>), VBin([i \in 1..300 |-> i % 256]),
               VTuple(<<VAtom(<<97>>), VList(<<SmallInt(1), VFloat(<<63,248,0,0,0,0,0,0>>)>>, VNil), VMap(<< <<VAtom(<<107>>), VBits(<<255,128>>, 1)>> >>)>>),
               VList(<<SmallInt(1)>>, SmallInt(2)), LocalPid, VTuple([i \in 1..256 |-> SmallInt(i % 256)]),
               VList([i \in 1..70 |-> VAtom(<<97 + (i % 26), 48 + (i % 10), 65 + (i \div 26)>>)], VNil) }
